@@ -70,6 +70,15 @@ def gen(rng, tier):
                 cs.append(Case("verify %s %s %s" % (hx(bytes(q)), hx(msg), hx(sig)), cls="verify/special-pk", expect="err"))
                 # S = 0 with a small-order key: R = identity-like encodings
                 cs.append(Case("verify %s %s %s" % (hx(bytes(q)), hx(msg), hx(bytes(q) + bytes(32))), cls="verify/special-both", expect="err"))
+    import signfam as _sf
+    cs += _sf.scalar_boundary_cases(rng)
+    # every PREFIX of a signed message through the combined open (fewer than 64 bytes included): libsodium's decision, never a panic
+    for bi in range(2 if tier == "quick" else 10):
+        seed, pk, sk = keypair(rng)
+        msg = rbytes(rng, 9 + bi)
+        sm = refs.ed_sign(seed, msg) + msg
+        for k in range(0, len(sm) + 1):
+            cs.append(Case("sign_open %s %s" % (hx(pk), hx(sm[:k])), cls="sign_open/prefix", expect=("ok " + hx(msg)) if k == len(sm) else "err"))
     # malleation family in pre-hashed mode too
     for bi in range(3 if tier == "quick" else 12):
         seed, pk, sk = keypair(rng)
